@@ -149,9 +149,16 @@ Definition align_to_latest_field (env : tenv) (st : tstate) (new_size new_align 
         else (with_offset st (latest_offset st + padding_bytes st lalign), false)
     end.
 
-(* saw_field: the over-aligned-array adjustment applied before saw_field_with_layout.
+(* saw_field: the over-aligned-array adjustment that was applied before saw_field_with_layout
+   UNTIL fix f7a3d75d removed it from the source (saw_field now passes the type's own layout on).
    [arr] = Some ((inner_size, inner_align), len) when the canonical type of the field
-   is an array whose element type has a layout. *)
+   is an array whose element type has a layout.
+   Kept to state what the adjustment did: Properties.array_hack_harmless shows it changed nothing
+   for element types that carry their alignment in Rust; it was harmful for element types whose
+   Rust spelling is LESS aligned than the C type (vector types become arrays of the lane type,
+   over-aligned scalar typedefs become plain aliases) - a situation this model (the Rust field
+   has the C member's alignment) does not express; props/c02.py covers it end to end with the
+   V / A / W record family. *)
 Definition array_adjust (field_layout : N * N) (arr : option ((N * N) * N)) : N * N :=
   match arr with
   | Some ((isize, ialign), len) =>
